@@ -1,3 +1,6 @@
+#[cfg(feature = "verif-hooks")]
+use crate::verif_hooks::HashSet;
+#[cfg(not(feature = "verif-hooks"))]
 use std::collections::HashSet;
 
 use proc_macro2::Span;
